@@ -45,6 +45,8 @@ def tlsdial_line(rng):
     cert.append("san=" + (",".join(sans) if sans else rng.choice(["none", "."])))
     blk = ["namecheck=%d" % rng.choice([1, 1, 0]), "cncheck=%d" % rng.choice([0, 0, 1])]
     if rng.random() < 0.4:
+        blk.append("extra=" + rng.choice(["before", "after"]))     # a second host in the block (127.0.0.2), never reached
+    if rng.random() < 0.4:
         blk.append("servername=" + hx(rng.choice([b"home.example", b"nobody", b"127.0.0.1", b"x.example"])))
     if rng.random() < 0.35:
         blk.append("terms=" + ";".join(hx(t) for t in rng.sample([b"CN:/^home/", b"CN:/^other$/", b"SubjectAltName:DNS:/\\.example$/", b"SubjectAltName:IP:127.0.0.1", b"SubjectAltName:IP:127.0.0.2"], rng.choice([1, 1, 2]))))
